@@ -246,6 +246,40 @@ def handleGrp (path mode peer : String) (now n : Nat)
     s!"diff grp sent model={mSent.map (fun e => (e.1, e.2.1.seq))} impl={iSent.map (fun e => (e.1, e.2.1.seq))}"
   else "ok"
 
+/-- `rst <variant> <mode> <timekind> <k2> now=… n=… subs=… delivered=… snap=… sent=…`: submissions of one
+(source, creation time) before and after an orderly restart. Spec only (the micro-step model has no restart
+event and no deletion; the theorem that covers the step is `assigned_number_is_free`): the same clauses as
+for a group; a bundle that was delivered and deleted before the restart need not be filed. -/
+def handleRst (variant mode : String) (now : Nat) (subs : List (Nat × BundleId)) (delivered : List Nat)
+    (snap : List (BundleId × BundleId × Nat)) (sent : List SentItem) : String :=
+  let obs : Obs := ⟨snap, sent.map (fun s => (s.peer, s.id, s.tag))⟩
+  let tc (i : BundleId) : String := timeClass now i.time
+  let sfx := if mode == "conc" then "-after-restart-concurrent" else "-after-restart"
+  if ¬ decide (SentIdsDistinct obs) then
+    let bad := obs.sent.find? (fun a => obs.sent.any (fun b => a.2.2 != b.2.2 && a.2.1 == b.2.1))
+    let i := (bad.map (·.2.1)).getD default
+    -- the number of a bundle that left the store before the restart is free again: its own input class
+    let cls := if variant == "gap" && obs.sent.any (fun a => delivered.contains a.2.2 && a.2.1 == i)
+      then "-number-of-a-bundle-delivered-before-the-restart" else sfx
+    s!"specfail same-id-on-wire-creation-time-{tc i}{cls} id={i.source}~{i.time}~{i.seq}"
+  else if ¬ decide (StoreKeysDistinct obs) then
+    s!"specfail same-store-key-creation-time-{tc ((obs.stored.head?.map (·.1)).getD default)}{sfx}"
+  else if ¬ decide (∀ e ∈ obs.stored, e.1 = e.2.1) then
+    s!"specfail store-key-differs-from-stored-id{sfx}"
+  else if ¬ decide (∀ e ∈ obs.stored, ∀ s ∈ obs.sent, e.2.2 = s.2.2 → s.2.1 = e.1) then
+    s!"specfail stored-id-differs-from-transmitted-id{sfx}"
+  else if ¬ decide (∀ a ∈ obs.sent, ∀ b ∈ obs.sent, a.2.2 = b.2.2 → a.2.1 = b.2.1) then
+    s!"specfail copies-of-one-bundle-carry-different-ids{sfx}"
+  else
+  let tags := (subs.map (·.1)).filter (fun t => !delivered.contains t)
+  if ¬ decide (FiledOnce tags obs) then
+    let t := (tags.find? (fun t => (snap.filter (·.2.2 = t)).length != 1)).getD 0
+    let i := ((subs.find? (·.1 = t)).map (·.2)).getD default
+    s!"specfail bundle-not-filed-creation-time-{tc i}{sfx}"
+  else if sent.any (fun s => s.look != "F") then
+    s!"specfail transmitted-copy-not-filed-under-its-id-creation-time-{tc ((sent.find? (fun s => s.look != "F")).map (·.id)).get!}{sfx}"
+  else "ok"
+
 def handle (line : String) : String :=
   if line.startsWith "grp " && ((line.splitOn " panic ").length > 1 || (line.splitOn " error ").length > 1) then
     "specfail panic-or-error-in-submission " ++ line
@@ -264,6 +298,20 @@ def handle (line : String) : String :=
       else if rs.any (fun r => r != List.range k) then s!"diff idkc expected {List.range k}"
       else "ok"
     | none => "skip parse"
+  | "rst" :: variant :: mode :: _tk :: _k :: rest =>
+    if (line.splitOn " panic ").length > 1 || (line.splitOn " error ").length > 1 then
+      "specfail panic-or-error-in-submission " ++ line
+    else
+    match (kv "now" rest).bind (·.toNat?), kv "subs" rest, kv "delivered" rest, kv "snap" rest, kv "sent" rest with
+    | some now, some subs, some dl, some snap, some sent =>
+      if (snap.splitOn "unreadable").length > 1 || (snap.splitOn "unparsable").length > 1 ||
+         (sent.splitOn "unparsable").length > 1 then
+        "specfail stored-or-transmitted-bundle-unreadable"
+      else
+      match (items subs).mapM parseSub, (items dl).mapM parseTag, (items snap).mapM parseSnap, (items sent).mapM parseSent with
+      | some subs, some dl, some snap, some sent => handleRst variant mode now subs dl snap sent
+      | _, _, _, _ => "skip parse"
+    | _, _, _, _, _ => "skip parse"
   | "grp" :: path :: mode :: peer :: _tk :: _k :: rest =>
     match (kv "now" rest).bind (·.toNat?), (kv "n" rest).bind (·.toNat?), kv "subs" rest, kv "snap" rest, kv "sent" rest with
     | some now, some n, some subs, some snap, some sent =>
